@@ -87,12 +87,14 @@ static void do_all(const unsigned char *s, size_t n) {
         head("tok", s, n); seq("tok", (unsigned char *) dels[di], strlen(dels[di]), 1);
         vh_bprintf(&b, ",\"toks\":[");
         int off = 0, first = 1, cnt = 0; char stop; char *t;
-        while ((t = qstrtok(g.p, dels[di], &stop, &off)) != NULL && cnt++ < 64) {
+        unsigned char stops[66]; size_t nstops = 0;
+        while ((stop = 0x7e, t = qstrtok(g.p, dels[di], &stop, &off)) != NULL && cnt++ < 64) {
+            stops[nstops++] = (unsigned char) stop;          /* the delimiter that ended this field, or 0 at the end of the string */
             vh_bprintf(&b, "%s[", first ? "" : ","); first = 0;
             for (size_t j = 0; j < strlen(t); j++) vh_bprintf(&b, "%s%d", j ? "," : "", (unsigned char) t[j]);
             vh_bprintf(&b, "]");
         }
-        vh_bprintf(&b, "]"); tail(gok(&g) && off >= 0 && (size_t) off <= n); gfree(&g);
+        vh_bprintf(&b, "]"); seq("stops", stops, nstops, 1); tail(gok(&g) && off >= 0 && (size_t) off <= n); gfree(&g);
         char *src = malloc(n + 1); memcpy(src, s, n); src[n] = 0;
         qlist_t *L = qstrtokenizer(src, dels[di]);
         head("tokenizer", s, n); seq("tok", (unsigned char *) dels[di], strlen(dels[di]), 1);
